@@ -22,7 +22,7 @@ BIG = 10**12
 GAP_TYPES = ["scaffold", "contig", "centromere", "short_arm", "heterochromatin", "telomere", "repeat", "contamination"]
 FRAG_NAMES = ["c1", "a:b", "x-1:2-3", "p q r", "k%s%%"]
 COORDS = [(1, 1), (1, 5), (5, BIG)]
-TAGSETS = [(), ("Painted",), ("Painted", "X"), ("Painted", "W", "Haplotig", "Unloc", "Hap1", "Cut")]
+TAGSETS = [(), ("Painted",), ("Painted", "X"), ("Painted", "W", "Haplotig", "Unloc", "Hap1", "Cut"), ("Hap1", "Painted", "Hap1")]
 
 FULL = [("F", n, s, e, st, t) for n in FRAG_NAMES for s, e in COORDS for st in (1, -1, 0) for t in TAGSETS] + [
     ("G", ln, gt) for ln in (1, 200, BIG) for gt in GAP_TYPES
@@ -338,6 +338,20 @@ class C05(Check):
                         r = runner.invoke(cli, [str(dstt), "-f", "AGP"])
                         if r.exit_code != 0 or r.stdout != agp:
                             ctx.violation("cli-tpf-to-agp", case, f"exit {r.exit_code}: {r.stdout[:300]!r}")
+                        # the same conversions with file extensions in other letter cases
+                        for e_agp, e_tpf in ((".AGP", ".TPF"), (".Agp", ".Tpf")):
+                            s2, t2, a2 = d / f"in2{e_agp}", d / f"step{e_tpf}", d / f"back{e_agp}"
+                            s2.write_text(agp)
+                            r = runner.invoke(cli, [str(s2), "-o", str(t2)])
+                            if r.exit_code != 0 or t2.read_text() != tpf:
+                                ctx.violation("cli-agp-to-tpf/extension-case", case, f"{e_agp}->{e_tpf}: exit {r.exit_code}: {t2.read_text()[:200] if t2.exists() else None!r}")
+                            else:
+                                r = runner.invoke(cli, [str(t2), "-o", str(a2)])
+                                if r.exit_code != 0 or a2.read_text() != agp:
+                                    ctx.violation("cli-tpf-to-agp/extension-case", case, f"{e_tpf}->{e_agp}: exit {r.exit_code}")
+                            for p in (s2, t2, a2):
+                                if p.exists():
+                                    os.unlink(p)
                     for p in (src, dst, d / "out.tpf"):
                         if p.exists():
                             os.unlink(p)
@@ -482,3 +496,4 @@ CHECK = C05()
 # scope added in later rounds, kept in the evidence text
 CHECK.rule += ' Rows with six tags; asm-format with two and three input files into one output (file and stdout), also with AGP and TPF inputs mixed in one invocation.'
 CHECK.rule += " Scaffold and contig names containing '%' (u%%7, 50%, c%d_r, k%s%%)."
+CHECK.rule += ' A tag tuple that repeats a tag (Hap1 Painted Hap1). CLI conversions also with file extensions .AGP/.TPF and .Agp/.Tpf.'
